@@ -46,9 +46,13 @@ def partitions_of(rng, n):
 
 
 def tilings_of(rng, sy, sx):
-    mode = int(rng.integers(4))
+    mode = int(rng.integers(6))
     if mode == 0:
         return [((0, 0), (sy, sx))]
+    if mode == 4:       # every row its own tile: a tile boundary at every possible position
+        return [((y, 0), (1, sx)) for y in range(sy)]
+    if mode == 5:       # every column its own tile
+        return [((0, x), (sy, 1)) for x in range(sx)]
     if mode == 1:
         cuts = sorted(set(rng.integers(1, sy, size=int(rng.integers(1, 4))).tolist()))
         ys = [0] + cuts + [sy]
@@ -276,7 +280,15 @@ def search(ctx, boost=1, focus=()):
                   # no all-zero frames here: their correlation map is constant, every position is a maximiser and the reported
                   # centre depends on the order of summation (an exact tie, nothing the statement decides)
                   "frame_kinds": ["poisson" if fk == "zero" else fk for fk in q["frame_kinds"]]})
-        if k % 3 == 2:
+        if k % 4 == 1:
+            # a tight search range: the stamped template is non-zero up to its last row and column
+            pt_ = dict(q["pattern"])
+            pt_["search"] = float(pt_.get("radius_outer", pt_["radius"]))
+            q["pattern"] = pt_
+            sy_, sx_ = q["shape"]
+            q["tiling"] = [((y, 0), (1, sx_)) for y in range(sy_)] if k % 8 == 1 else [((0, x), (sy_, 1)) for x in range(sx_)]
+            ctx.count("sparse_tight_search")
+        if k % 3 == 2 and int(np.ceil(q["pattern"]["search"])) >= 3:
             c_ = int(np.ceil(q["pattern"]["search"]))
             hh, ww = int(rng.integers(2, 4)), int(rng.integers(5, 2 * c_))
             q["asym"] = {"shape": [hh, ww] if k % 2 else [ww, hh], "search": float(c_)}
